@@ -329,6 +329,16 @@ impl Instance {
         }
     }
 
+    /// Routes a monitor's verdict through `tolerate`: a finding that belongs to another property than the one in
+    /// focus (or to a listed known finding) is recorded and the remaining monitors of this step still run, so that
+    /// an early monitor of another property cannot hide the property under check.
+    fn soft(&mut self, r: Result<(), Violation>) -> Result<(), Violation> {
+        match r {
+            Ok(()) => Ok(()),
+            Err(v) => self.tolerate(v),
+        }
+    }
+
     /// Marks the start of a call into the crate (fault engine only; one write syscall).
     pub fn call_start(&mut self) {
         if let Some(f) = self.call_markers.as_mut() {
@@ -693,7 +703,8 @@ impl Instance {
                         eprintln!("    [leveled rep] watermark={t} layout={}", self.describe_layout().render());
                     }
                     self.set_ctx(&[], "leveled");
-                    self.after_compaction()?;
+                    let r = self.after_compaction();
+                    self.soft(r)?;
                     self.post_structural()?;
                     if self.latest().0 == before {
                         break;
@@ -708,7 +719,8 @@ impl Instance {
                 self.call_done(r.is_ok());
                 r.map_err(|e| self.op_err(op, "major_compact", &e))?;
                 self.set_ctx(&[], "major");
-                self.after_compaction()?;
+                let r = self.after_compaction();
+                self.soft(r)?;
                 self.post_structural()
             }
             Op::MoveDown { a, b, wm } => {
@@ -735,7 +747,8 @@ impl Instance {
                 self.call_done(r.is_ok());
                 r.map_err(|e| self.op_err(op, "compact(pull_down)", &e))?;
                 self.set_ctx(&[], "pull_down");
-                self.after_compaction()?;
+                let r = self.after_compaction();
+                self.soft(r)?;
                 self.post_structural()
             }
             Op::SnapOpen { slot } => {
@@ -1136,7 +1149,8 @@ impl Instance {
                 return Err(Violation::from_finding(f));
             }
         }
-        self.audit_current(true)?;
+        let r = self.audit_current(true);
+        self.soft(r)?;
         self.battery(true, &[])
     }
 
@@ -1261,15 +1275,20 @@ impl Instance {
     // monitors run after ops
 
     fn post_write(&mut self, touched: &[Key]) -> Result<(), Violation> {
-        self.seqno_marks()?;
+        let r = self.seqno_marks();
+        self.soft(r)?;
         self.battery(false, touched)
     }
 
     fn post_structural(&mut self) -> Result<(), Violation> {
-        self.audit_installs()?;
-        self.snapshot_version_invariant()?;
-        self.dir_audit()?;
-        self.seqno_marks()?;
+        let r = self.audit_installs();
+        self.soft(r)?;
+        let r = self.snapshot_version_invariant();
+        self.soft(r)?;
+        let r = self.dir_audit();
+        self.soft(r)?;
+        let r = self.seqno_marks();
+        self.soft(r)?;
         self.record_layout();
         self.battery(true, &[])
     }
@@ -1571,15 +1590,18 @@ impl Instance {
             }
             let vis = self.visible.get();
             for k in &keys {
-                self.check_point(k, SnapSel::Max)?;
+                let r = self.check_point(k, SnapSel::Max);
+                self.soft(r)?;
                 if vis > 0 {
-                    self.check_point(k, SnapSel::Visible(vis))?;
+                    let r = self.check_point(k, SnapSel::Visible(vis));
+                    self.soft(r)?;
                 }
             }
             // an older live snapshot must not see the new write
             if let Some((i, s)) = self.snaps.iter().enumerate().find_map(|(i, s)| s.map(|s| (i, s.seq))) {
                 for k in touched {
-                    self.check_point(k, SnapSel::Live(i, s))?;
+                    let r = self.check_point(k, SnapSel::Live(i, s));
+                    self.soft(r)?;
                 }
             }
             Ok(())
@@ -1590,18 +1612,22 @@ impl Instance {
         let keys = self.all_keys();
         for &sel in sels {
             for k in &keys {
-                self.check_point(k, sel)?;
+                let r = self.check_point(k, sel);
+                self.soft(r)?;
             }
             // absent probes
             for probe in [&b"\x00"[..], b"zzzz-absent", b"g", b"\xff\xff\xff"] {
                 if !keys.iter().any(|k| k.as_slice() == probe) {
-                    self.check_point(probe, sel)?;
+                    let r = self.check_point(probe, sel);
+                    self.soft(r)?;
                 }
             }
             if scans {
-                self.full_scans(sel)?;
+                let r = self.full_scans(sel);
+                self.soft(r)?;
                 for _ in 0..self.scan_cases {
-                    self.random_scan_case(sel)?;
+                    let r = self.random_scan_case(sel);
+                    self.soft(r)?;
                 }
             }
         }
